@@ -53,7 +53,8 @@ def main(argv: list[str] | None = None) -> int:
                 rep.analysed["seeded defects (independent authors)"] = ssum
                 problems = list(problems) + sprob
                 print(f"SEEDED {prop} " + "; ".join(f"{k}: {v[:60]}" for k, v in ssum.items()))
-            print(f"SELFTEST {prop} fired {summary.get('breaking_fired', '0/0')}, silent {summary.get('benign_silent', '0/0')} ({summary.get('variants', 0)} scratch-copy variants)")
+            print(f"SELFTEST {prop} fired {summary.get('breaking_fired', '0/0')}" + (f" (+{summary['breaking_stopped_exit2']} stopped with exit 2)" if summary.get("breaking_stopped_exit2") else "")
+                  + f", silent {summary.get('benign_silent', '0/0')} ({summary.get('variants', 0)} scratch-copy variants)")
         code = rep.finish(repo)
         if problems and code == 0:
             print(f"ANALYSIS-ERROR property={prop}: checker self-test failed: " + "; ".join(f"{m}={st}" for m, st, _ in problems))
